@@ -12,16 +12,19 @@
  *     agreed with the model's prediction.
  *  A' far operands.  After the fixpoint every reached state is offered
  *     add / consume / consume_at_most with operand lengths from a boundary
- *     family up to SIZE_MAX (2^8 .. 2^64 -/+ (size+1)).  Such an add or consume
- *     has to fail without change, the at-most variant delivers what is there;
- *     all of that is decidable without memory of that size: the source block
- *     is never read by an add that refuses.
+ *     family (2^8 .. 2^64 -/+ (size+1)).  Such an add or consume has to fail
+ *     without change, the at-most variant delivers what is there.  An add that
+ *     refuses has nothing to append: its source block is smaller than stated.
+ *     The destination of a consume / at-most really has the stated length (heap
+ *     block, or a guarded 16 GiB mapping); lengths beyond that are not offered
+ *     to consume / at-most.
  *  R  descriptor re-use.  Every set-up call of the argument matrix (set / use
  *     / space; null memory, zero size, used > size, offset > used -- small and
  *     far values) is made on a descriptor with a history: zeroed, 0xff-filled,
  *     byte_buffer_null'ed, and in use with every (used, offset) geometry over
  *     other memory or over the very memory now offered.  A refused set-up must
- *     leave the descriptor (all four fields) and both memory blocks unchanged;
+ *     leave both memory blocks unchanged and the descriptor either unchanged or
+ *     describing no memory (refused_descriptor_ok);
  *     an accepted one must describe exactly what was asked for, and every
  *     operation of the alphabet is then run once on the re-used descriptor
  *     against the model of a fresh one (differential oracle).
@@ -37,6 +40,10 @@
  *     are accessible: a call that touches another page of the mapping (work in
  *     proportion to the buffer size -- nothing the statement forbids) is
  *     abandoned as undecided and the run is marked non-exhaustive.
+ *
+ *  X  every operation with its buffer argument given as an expression with a
+ *     side effect (expr_family).
+ *  J  operands that touch the buffer's memory from outside (adjacent_family).
  *
  * The image an operation starts from is always the one the set-up call left
  * (set-up must keep the octets it is told are filled; what it does to the free
@@ -135,6 +142,162 @@ fill_src(unsigned char *src, size_t n, int pat)
                               : (unsigned char)(0xc3 ^ (i * 29 + (i >> 8) * 7));
 }
 
+/* ---- guarded regions ---------------------------------------------------------
+ * Two lazily backed mappings whose pages are mostly inaccessible:
+ *   bigmap  the memory of the large-scope buffers (B2): only the pages under
+ *           the compared windows are accessible;
+ *   fardst  the destination handed to consume / consume_at_most with a length
+ *           of 2^31 and more: FARDST_LEN octets of address space that really
+ *           belong to the harness, of which only the first 256 KiB are accessible.
+ * An implementation that touches an inaccessible page of either (work in
+ * proportion to the buffer size; padding or clearing the destination within
+ * the length the caller states -- nothing the statement forbids) is not a
+ * violation: the case is abandoned as undecided and the run marked
+ * non-exhaustive.  Faults elsewhere go to the sanitizer's handler as before. */
+#define BIGLEN (((size_t)1 << 32) + ((size_t)1 << 17))
+static unsigned char *bigmap;
+#define FARDST_LEN ((size_t)1 << 34)
+#define FARDST_HOT ((size_t)1 << 18) /* accessible octets at its start */
+static unsigned char *fardst;
+static bool fardst_failed;
+
+static sigjmp_buf big_jmp;
+static volatile sig_atomic_t big_armed;
+static struct sigaction big_oldsa;
+static bool guard_installed;
+
+static void
+big_segv(int sig, siginfo_t *si, void *ctx)
+{
+    const uintptr_t a = (uintptr_t)si->si_addr;
+    if (big_armed
+        && ((bigmap != NULL && a >= (uintptr_t)bigmap && a < (uintptr_t)bigmap + BIGLEN)
+            || (fardst != NULL && a >= (uintptr_t)fardst && a < (uintptr_t)fardst + FARDST_LEN))) {
+        big_armed = 0;
+        siglongjmp(big_jmp, 1);
+    }
+    if (big_oldsa.sa_flags & SA_SIGINFO) {
+        big_oldsa.sa_sigaction(sig, si, ctx);
+    } else {
+        signal(SIGSEGV, SIG_DFL);
+    }
+}
+
+static void
+guard_install(void)
+{
+    if (guard_installed)
+        return;
+    struct sigaction sa;
+    memset(&sa, 0, sizeof sa);
+    sa.sa_sigaction = big_segv;
+    sa.sa_flags = SA_SIGINFO | SA_NODEFER;
+    sigaction(SIGSEGV, &sa, &big_oldsa);
+    guard_installed = true;
+}
+
+/* run `CALL`; `UNDECIDED` when it touched an inaccessible page of a guarded region */
+#define BIG_GUARDED(CALL, UNDECIDED)            \
+    do {                                        \
+        if (sigsetjmp(big_jmp, 1) == 0) {       \
+            big_armed = 1;                      \
+            CALL;                               \
+            big_armed = 0;                      \
+        } else {                                \
+            UNDECIDED = true;                   \
+        }                                       \
+    } while (0)
+
+/* A destination for a consume / consume_at_most that states `len` octets, of
+ * which the implementation under the statement writes at most `hot`.  It
+ * really has `len` octets: an exact-size heap block (ASan red zone behind it)
+ * up to 2^20, the guarded mapping up to FARDST_LEN.  Lengths beyond that cannot
+ * be backed and are not generated (farlen_backable).  NULL: mapping refused. */
+#define FARDST_HEAP ((size_t)1 << 20)
+static bool
+farlen_backable(size_t len)
+{
+    return len <= FARDST_LEN;
+}
+
+static unsigned char *
+dst_get(size_t len, size_t hot, bool *mapped)
+{
+    *mapped = false;
+    if (len <= FARDST_HEAP) {
+        unsigned char *d = mc_exact(len);
+        memset(d, 0xee, len);
+        return d;
+    }
+    if (fardst == NULL && !fardst_failed) {
+        void *p = mmap(NULL, FARDST_LEN, PROT_NONE, MAP_PRIVATE | MAP_ANONYMOUS | MAP_NORESERVE, -1, 0);
+        if (p == MAP_FAILED || mprotect(p, FARDST_HOT, PROT_READ | PROT_WRITE) != 0) {
+            if (p != MAP_FAILED)
+                munmap(p, FARDST_LEN);
+            fardst_failed = true;
+            mc_cap("%zu GiB of address space for far destinations not available: consume lengths >= 2^31 skipped",
+                   FARDST_LEN >> 30);
+        } else {
+            fardst = p;
+            guard_install();
+        }
+    }
+    if (fardst == NULL)
+        return NULL;
+    if (hot > FARDST_HOT)
+        mc_broken("far destination: %zu octets expected to be written, %zu are accessible", hot, (size_t)FARDST_HOT);
+    memset(fardst, 0xee, hot < 64 ? 64 : hot);
+    *mapped = true;
+    return fardst;
+}
+
+static void
+dst_put(unsigned char *d, bool mapped)
+{
+    if (!mapped)
+        free(d);
+}
+
+/* After this many abandoned calls of one kind the remaining far-length calls
+ * of that kind on the mapping are not made any more (each costs the
+ * implementation's walk over GiB of address space up to the fault); the run
+ * is non-exhaustive from the first one on. */
+#define FAR_UNDECIDED_MAX 16
+static int far_undecided_n[2]; /* consume, at-most */
+static bool said_far_undecided;
+static void
+far_undecided(void)
+{
+    mc_log("undecided: the call touched the destination beyond the octets it delivers");
+    if (!said_far_undecided)
+        mc_cap("far-length cases abandoned: the implementation touches the destination in proportion to the stated length");
+    said_far_undecided = true;
+}
+
+/* ---- argument expressions with a side effect ----------------------------------
+ * The operations are functions of the public header: a call whose buffer
+ * argument is an expression with a side effect (a cursor function walking a
+ * list of buffers) operates on the one buffer that expression yields.  In
+ * expression mode run_op() passes xb() as the buffer argument: its first
+ * evaluation yields the buffer under test, every further one the next decoy
+ * (same geometry over memory of its own).  An operation made available as a
+ * function-like macro that evaluates its argument more than once then works
+ * on the decoys. */
+static bool expr_mode;
+static struct {
+    ByteBuffer *seq[3];
+    int i;
+} xcur;
+
+static ByteBuffer *
+xb(void)
+{
+    ByteBuffer *b = xcur.seq[xcur.i < 2 ? xcur.i : 2];
+    xcur.i++;
+    return b;
+}
+#define XB(b) (expr_mode ? xb() : (b))
+
 /* The list model of one buffer: the whole memory image before the operation
  * (content = img[0..used), unread = img[off..used)). */
 struct model {
@@ -150,11 +313,14 @@ run_op(ByteBuffer *b, unsigned char *mem, struct model *m, const struct op *o, c
 {
     const size_t size = m->size;
     const size_t rest = m->used - m->off;
-    /* an operand no buffer of this size could ever satisfy: the blocks handed
-     * to the library are then smaller than the operand says (a call that
-     * refuses does not touch them; the at-most variant is given room for
-     * everything that is there) */
+    /* an operand no buffer of this size could ever satisfy.  add: the source
+     * block is then smaller than the operand says (an add that has to refuse
+     * has no octet to append and does not read it).  consume / at-most: the
+     * destination always has the stated length (dst_get); lengths that cannot
+     * be backed are not generated. */
     const bool far = o->len > size + 1;
+    if (far && o->k != OP_ADD && !farlen_backable(o->len))
+        mc_broken("a consume length that cannot be backed was generated");
     const size_t k_used = m->used, k_off = m->off;
     bool ok = true, refused = false;
     *outcome = "?";
@@ -164,7 +330,7 @@ run_op(ByteBuffer *b, unsigned char *mem, struct model *m, const struct op *o, c
         unsigned char *src = mc_exact(srcn);
         fill_src(src, srcn, o->pat);
         const bool fits = o->len <= size - m->used;
-        int rc = byte_buffer_add(b, src, o->len);
+        int rc = byte_buffer_add(XB(b), src, o->len);
         mc_log("add rc=%d", rc);
         if (fits) {
             memcpy(m->img + m->used, src, o->len);
@@ -188,12 +354,27 @@ run_op(ByteBuffer *b, unsigned char *mem, struct model *m, const struct op *o, c
         break;
     }
     case OP_CONSUME: {
-        const size_t dstn = far ? rest + 8 : o->len;
-        unsigned char *dst = mc_exact(dstn);
-        memset(dst, 0xee, dstn);
-        int rc = byte_buffer_consume(b, dst, o->len);
+        /* the destination really has the o->len octets the call states */
+        bool mapped = false, undecided = false;
+        unsigned char *dst = dst_get(o->len, o->len <= rest ? o->len : 0, &mapped);
+        if (dst == NULL) {
+            *outcome = "far-unmapped";
+            return false;
+        }
+        int rc = 0;
+        if (mapped && far_undecided_n[0] >= FAR_UNDECIDED_MAX)
+            undecided = true;
+        else
+            BIG_GUARDED(rc = byte_buffer_consume(XB(b), dst, o->len), undecided);
+        if (undecided) {
+            far_undecided_n[0]++;
+            far_undecided();
+            dst_put(dst, mapped);
+            *outcome = "far-undecided";
+            return false;
+        }
         mc_log("consume rc=%d", rc);
-        mc_log_hex("out", dst, dstn > 64 ? 64 : dstn);
+        mc_log_hex("out", dst, o->len > 64 ? 64 : o->len);
         if (o->len <= rest) {
             *outcome = "consume-ok";
             if (rc < 0) {
@@ -212,16 +393,30 @@ run_op(ByteBuffer *b, unsigned char *mem, struct model *m, const struct op *o, c
                 ok = false;
             }
         }
-        free(dst);
+        dst_put(dst, mapped);
         break;
     }
     case OP_ATMOST: {
-        const size_t dstn = far ? rest + 8 : o->len;
-        unsigned char *dst = mc_exact(dstn);
-        memset(dst, 0xee, dstn);
-        ssize_t rc = byte_buffer_consume_at_most(b, dst, o->len);
+        bool mapped = false, undecided = false;
+        unsigned char *dst = dst_get(o->len, rest, &mapped);
+        if (dst == NULL) {
+            *outcome = "far-unmapped";
+            return false;
+        }
+        ssize_t rc = 0;
+        if (mapped && far_undecided_n[1] >= FAR_UNDECIDED_MAX)
+            undecided = true;
+        else
+            BIG_GUARDED(rc = byte_buffer_consume_at_most(XB(b), dst, o->len), undecided);
+        if (undecided) {
+            far_undecided_n[1]++;
+            far_undecided();
+            dst_put(dst, mapped);
+            *outcome = "far-undecided";
+            return false;
+        }
         mc_log("consume_at_most rc=%zd", rc);
-        mc_log_hex("out", dst, dstn > 64 ? 64 : dstn);
+        mc_log_hex("out", dst, o->len > 64 ? 64 : o->len);
         if (rest == 0) {
             refused = true; /* nothing there: failing or not, nothing may change */
             *outcome = far ? "far-atmost-empty" : "atmost-empty";
@@ -245,11 +440,11 @@ run_op(ByteBuffer *b, unsigned char *mem, struct model *m, const struct op *o, c
             }
             m->off += n;
         }
-        free(dst);
+        dst_put(dst, mapped);
         break;
     }
     case OP_REWIND: {
-        int rc = byte_buffer_rewind(b);
+        int rc = byte_buffer_rewind(XB(b));
         mc_log("rewind rc=%d", rc);
         memmove(m->img, m->img + m->off, rest);
         m->used = rest;
@@ -262,12 +457,12 @@ run_op(ByteBuffer *b, unsigned char *mem, struct model *m, const struct op *o, c
         break;
     }
     case OP_RESET:
-        byte_buffer_reset(b);
+        byte_buffer_reset(XB(b));
         m->used = m->off = 0;
         *outcome = "reset";
         break;
     case OP_CLEAR:
-        byte_buffer_clear(b);
+        byte_buffer_clear(XB(b));
         m->used = m->off = 0;
         memset(m->img, 0, size);
         *outcome = "clear";
@@ -279,7 +474,7 @@ run_op(ByteBuffer *b, unsigned char *mem, struct model *m, const struct op *o, c
             }
         break;
     case OP_REPEAT:
-        byte_buffer_repeat(b);
+        byte_buffer_repeat(XB(b));
         m->off = 0;
         *outcome = "repeat";
         break;
@@ -310,12 +505,11 @@ run_op(ByteBuffer *b, unsigned char *mem, struct model *m, const struct op *o, c
             /* "fails without change": the whole image, not only the filled part */
             mc_fail("C18/refusal-unchanged", "a refused operation changed the buffer's memory");
             ok = false;
-        } else if (byte_buffer_avail(b) != size - m->used || byte_buffer_rest(b) != m->used - m->off) {
-            mc_fail("C18/avail-rest", "avail=%zu rest=%zu, model %zu %zu", byte_buffer_avail(b),
-                    byte_buffer_rest(b), size - m->used, m->used - m->off);
-            ok = false;
         }
     }
+    /* byte_buffer_avail / byte_buffer_rest do not occur in the statement: observed, not demanded */
+    mc_log("avail=%zu rest=%zu (model: %zu %zu)", byte_buffer_avail(b), byte_buffer_rest(b), size - m->used,
+           m->used - m->off);
     return ok;
 }
 
@@ -428,6 +622,9 @@ explore(size_t size)
             for (int fi = 0; fi < nfar; ++fi) {
                 const struct op o = { kind == 0 ? OP_ADD : kind == 1 ? OP_CONSUME : OP_ATMOST, far[fi], 2 };
                 char on[64];
+                /* a destination of that length cannot exist: not a call the statement covers */
+                if (kind != 0 && !farlen_backable(far[fi]))
+                    continue;
                 if (mc_would_run() && path[0] == 0)
                     mc_set_path(&set, cur, path, sizeof path);
                 mc_case(STATE_FMT " far-op=%s", STATE_ARGS(k), opname(&o, on, sizeof on));
@@ -444,12 +641,29 @@ explore(size_t size)
     mc_set_free(&set);
 }
 
+/* The descriptor after a refused set-up.  "Set-up refuses null memory, zero
+ * size, used > size or offset > used": the statement does not say "without
+ * change" here (it does for add and consume).  Admissible: the descriptor as
+ * it was, or a consistent descriptor that describes no memory (data == NULL
+ * or size == 0, with offset <= used <= size).  A descriptor that was changed
+ * and still describes memory -- or whose marks are out of order -- would let
+ * the next operation work on a state nobody asked for. */
+static bool
+refused_descriptor_ok(const ByteBuffer *b, const ByteBuffer *before)
+{
+    if (b->data == before->data && b->size == before->size && b->used == before->used && b->offset == before->offset)
+        return true;
+    return (b->data == NULL || b->size == 0) && b->offset <= b->used && b->used <= b->size;
+}
+
 /* Set-up matrix on a descriptor holding arbitrary values */
 static void
 setup_matrix(size_t S)
 {
     unsigned char *mem = mc_exact(S);
     memset(mem, 0x5a, S);
+    unsigned char mem0[MAXSIZE];
+    memset(mem0, 0x5a, S);
     const size_t sizes[3] = { 0, 1, S };
     const int nsizes = (S == 1) ? 2 : 3;
     for (int dnull = 0; dnull < 2; ++dnull)
@@ -461,6 +675,7 @@ setup_matrix(size_t S)
                                  dnull ? "NULL" : "mem", size, used, off))
                         continue;
                     ByteBuffer b = { (unsigned char *)0x10, 77, 55, 33 };
+                    const ByteBuffer before = b;
                     int rc = byte_buffer_set(&b, dnull ? NULL : mem, size, used, off);
                     mc_trans(1);
                     const bool valid = !dnull && size > 0 && used <= size && off <= used;
@@ -472,9 +687,12 @@ setup_matrix(size_t S)
                             mc_fail("C18/setup-accepts-valid", "fields not set");
                     } else if (rc >= 0) {
                         mc_fail("C18/setup-refuses", "accepted rc=%d", rc);
-                    } else if (b.data != (unsigned char *)0x10 || b.size != 77 || b.used != 55 || b.offset != 33) {
-                        mc_fail("C18/refusal-unchanged", "refused set-up changed the descriptor: size=%zu used=%zu offset=%zu",
-                                b.size, b.used, b.offset);
+                    } else if (!refused_descriptor_ok(&b, &before)) {
+                        mc_fail("C18/refusal-unchanged",
+                                "refused set-up left a changed descriptor that still describes memory: data %s, size=%zu used=%zu offset=%zu",
+                                b.data == NULL ? "NULL" : "set", b.size, b.used, b.offset);
+                    } else if (memcmp(mem, mem0, S) != 0) {
+                        mc_fail("C18/refusal-unchanged", "refused set-up changed buffer memory");
                     }
                     mc_end(true, valid ? "set-ok" : "set-refused");
                 }
@@ -486,6 +704,7 @@ setup_matrix(size_t S)
                              dnull ? "NULL" : "mem", size))
                     continue;
                 ByteBuffer b = { (unsigned char *)0x10, 77, 55, 33 };
+                const ByteBuffer before = b;
                 int rc = which ? byte_buffer_space(&b, dnull ? NULL : mem, size)
                                : byte_buffer_use(&b, dnull ? NULL : mem, size);
                 mc_trans(1);
@@ -497,9 +716,12 @@ setup_matrix(size_t S)
                                 which ? "space" : "use", rc, b.used, b.offset);
                 } else if (rc >= 0) {
                     mc_fail("C18/setup-refuses", "%s accepted rc=%d", which ? "space" : "use", rc);
-                } else if (b.data != (unsigned char *)0x10 || b.size != 77 || b.used != 55 || b.offset != 33) {
-                    mc_fail("C18/refusal-unchanged", "refused set-up changed the descriptor: size=%zu used=%zu offset=%zu",
-                            b.size, b.used, b.offset);
+                } else if (!refused_descriptor_ok(&b, &before)) {
+                    mc_fail("C18/refusal-unchanged",
+                            "refused set-up left a changed descriptor that still describes memory: data %s, size=%zu used=%zu offset=%zu",
+                            b.data == NULL ? "NULL" : "set", b.size, b.used, b.offset);
+                } else if (memcmp(mem, mem0, S) != 0) {
+                    mc_fail("C18/refusal-unchanged", "refused set-up changed buffer memory");
                 }
                 mc_end(true, valid ? "set-ok" : "set-refused");
             }
@@ -592,12 +814,11 @@ reuse_case(size_t S, int pk, size_t pu, size_t po, int which, int dk, size_t t, 
     if (!valid) {
         if (rc >= 0)
             mc_fail("C18/setup-refuses", "accepted rc=%d", rc);
-        else if (b.data != before.data || b.size != before.size || b.used != before.used
-                 || b.offset != before.offset)
+        else if (!refused_descriptor_ok(&b, &before))
             mc_fail("C18/refusal-unchanged",
-                    "refused set-up changed the descriptor: data %s, size %zu -> %zu, used %zu -> %zu, offset %zu -> %zu",
-                    b.data == before.data ? "same" : "changed", before.size, b.size, before.used, b.used,
-                    before.offset, b.offset);
+                    "refused set-up left a changed descriptor that still describes memory: data %s, size %zu -> %zu, used %zu -> %zu, offset %zu -> %zu",
+                    b.data == before.data ? "same" : b.data == NULL ? "NULL" : "changed", before.size, b.size,
+                    before.used, b.used, before.offset, b.offset);
         else if (memcmp(pmem, p0, S) != 0 || memcmp(tmem, t0, tn) != 0)
             mc_fail("C18/refusal-unchanged", "refused set-up changed buffer memory");
         mc_end(true, pk == 3 ? "reuse-set-refused" : "dirty-set-refused");
@@ -686,6 +907,184 @@ reuse_pass(size_t S)
                     }
 }
 
+/* ---- X: buffer argument given as an expression with a side effect ----------- */
+
+static void
+expr_family(size_t maxS)
+{
+    static struct op ops[MAXOPS];
+    for (size_t S = 1; S <= maxS; ++S) {
+        const int nops = make_ops(ops, S);
+        for (size_t used = 0; used <= S; ++used)
+            for (size_t off = 0; off <= used; ++off)
+                for (int oi = 0; oi < nops; ++oi) {
+                    char on[64];
+                    if (!mc_case("expr size=%zu state=(used=%zu,off=%zu,img=31 32 ..) op=%s called as op(next(&cursor), ...) "
+                                 "with two more buffers of the same geometry behind the cursor",
+                                 S, used, off, opname(&ops[oi], on, sizeof on)))
+                        continue;
+                    mc_trans(1);
+                    unsigned char *mem[3];
+                    unsigned char img[3][MAXSIZE];
+                    ByteBuffer bb[3];
+                    bool setok = true;
+                    for (int k = 0; k < 3; ++k) {
+                        for (size_t i = 0; i < S; ++i)
+                            img[k][i] = (unsigned char)(0x31 + i + 0x40 * k);
+                        mem[k] = mc_exact_copy(img[k], S);
+                        memset(&bb[k], 0, sizeof bb[k]);
+                        if (byte_buffer_set(&bb[k], mem[k], S, used, off) < 0
+                            || memcmp(mem[k], img[k], used) != 0) {
+                            mc_fail("C18/setup-accepts-valid", "byte_buffer_set refused a valid state or changed filled octets");
+                            setok = false;
+                        }
+                        memcpy(img[k], mem[k], S); /* free room as set-up left it */
+                    }
+                    const char *outcome = "setup-refused";
+                    if (setok) {
+                        const ByteBuffer d1 = bb[1], d2 = bb[2];
+                        struct model m = { S, used, off, img[0] };
+                        xcur.seq[0] = &bb[0];
+                        xcur.seq[1] = &bb[1];
+                        xcur.seq[2] = &bb[2];
+                        xcur.i = 0;
+                        expr_mode = true;
+                        const bool ok = run_op(&bb[0], mem[0], &m, &ops[oi], &outcome);
+                        expr_mode = false;
+                        mc_log("the argument expression was evaluated %d time(s)", xcur.i);
+                        if (ok) {
+                            for (int k = 1; k < 3; ++k) {
+                                const ByteBuffer *d = (k == 1) ? &d1 : &d2;
+                                if (bb[k].data != d->data || bb[k].size != d->size || bb[k].used != d->used
+                                    || bb[k].offset != d->offset || memcmp(mem[k], img[k], S) != 0) {
+                                    mc_fail("C18/outside-untouched",
+                                            "the operation changed buffer %d behind the cursor (used %zu -> %zu, offset %zu -> %zu%s): "
+                                            "its argument expression is evaluated more than once",
+                                            k, d->used, bb[k].used, d->offset, bb[k].offset,
+                                            memcmp(mem[k], img[k], S) != 0 ? ", memory changed" : "");
+                                    break;
+                                }
+                            }
+                        }
+                    }
+                    for (int k = 0; k < 3; ++k)
+                        free(mem[k]);
+                    mc_end(true, "expr-argument");
+                    (void)outcome;
+                }
+    }
+}
+
+/* ---- J: operands that touch the buffer's memory --------------------------------
+ * The source of an add / the destination of a consume lies in the same object
+ * as the buffer's memory, directly in front of it or directly behind it (gap
+ * 0 or 1 octet), never inside it: nothing overlaps, so the operation has to
+ * do what the statement says.  One exact-size block [front | memory | back]. */
+
+static void
+adjacent_case(size_t S, size_t used, size_t off, int kind, size_t len, bool behind, size_t gap)
+{
+    const size_t P = MAXSIZE + 3; /* octets in front of and behind the memory */
+    const size_t total = P + S + P;
+    unsigned char *blk = mc_exact(total), *img = mc_exact(total);
+    for (size_t i = 0; i < total; ++i)
+        blk[i] = (unsigned char)(0x11 + i * 7);
+    unsigned char *mem = blk + P;
+    /* the operand: len octets at mem - gap - len, or at mem + S + gap */
+    const size_t opos = behind ? P + S + gap : P - gap - len;
+    unsigned char *operand = blk + opos;
+    ByteBuffer b;
+    memset(&b, 0, sizeof b);
+    memcpy(img, blk, total);
+    if (byte_buffer_set(&b, mem, S, used, off) < 0 || memcmp(mem, img + P, used) != 0) {
+        mc_fail("C18/setup-accepts-valid", "byte_buffer_set refused a valid state or changed filled octets");
+        free(blk);
+        free(img);
+        mc_end(false, "setup-refused");
+        return;
+    }
+    memcpy(img, blk, total); /* free room as set-up left it */
+    const size_t rest = used - off;
+    size_t m_used = used, m_off = off;
+    const char *outcome;
+    mc_trans(1);
+    if (kind == 0) {
+        outcome = "adjacent-add";
+        const int rc = byte_buffer_add(&b, operand, len);
+        mc_log("add rc=%d", rc);
+        memcpy(img + P + used, img + opos, len);
+        m_used += len;
+        if (rc < 0)
+            mc_fail("C18/add-appends", "add of %zu octets with %zu free refused rc=%d (the source does not overlap the buffer)",
+                    len, S - used, rc);
+    } else if (kind == 1) {
+        outcome = "adjacent-consume";
+        const int rc = byte_buffer_consume(&b, operand, len);
+        mc_log("consume rc=%d", rc);
+        memcpy(img + opos, img + P + off, len);
+        m_off += len;
+        if (rc < 0)
+            mc_fail("C18/consume-oldest", "consume(%zu) with %zu unread refused rc=%d (the destination does not overlap the buffer)",
+                    len, rest, rc);
+        else if (memcmp(operand, img + opos, len) != 0)
+            mc_fail("C18/consume-oldest", "consume(%zu) did not return the oldest unread octets", len);
+    } else {
+        outcome = "adjacent-atmost";
+        const size_t n = len < rest ? len : rest;
+        const ssize_t rc = byte_buffer_consume_at_most(&b, operand, len);
+        mc_log("consume_at_most rc=%zd", rc);
+        memcpy(img + opos, img + P + off, n);
+        /* the destination's octets behind the n delivered ones (within the stated length) are open */
+        memcpy(img + opos + n, operand + n, len - n);
+        m_off += n;
+        if (rc != (ssize_t)n)
+            mc_fail("C18/atmost-count", "consume_at_most(%zu) with %zu unread returned %zd, expected %zu (the destination does not overlap the buffer)",
+                    len, rest, rc, n);
+        else if (memcmp(operand, img + opos, n) != 0)
+            mc_fail("C18/atmost-oldest", "consume_at_most(%zu) did not return the oldest unread octets", len);
+    }
+    mc_log("after: size=%zu used=%zu offset=%zu", b.size, b.used, b.offset);
+    if (!mc.cur_failed) {
+        if (b.data != mem || b.size != S)
+            mc_fail("C18/geometry-unchanged", "data/size changed: size=%zu", b.size);
+        else if (!(b.offset <= b.used && b.used <= b.size))
+            mc_fail("C18/invariant", "offset=%zu used=%zu size=%zu", b.offset, b.used, b.size);
+        else if (b.used != m_used || b.offset != m_off)
+            mc_fail(kind == 0 ? "C18/add-appends" : "C18/consume-advances", "fields used=%zu offset=%zu, model used=%zu offset=%zu",
+                    b.used, b.offset, m_used, m_off);
+        else if (memcmp(mem, img + P, m_used) != 0)
+            mc_fail(kind == 0 ? "C18/add-appends" : "C18/consume-advances", "filled region differs from the model's content");
+        else if (memcmp(blk, img, P) != 0 || memcmp(blk + P + S, img + P + S, P) != 0)
+            mc_fail("C18/outside-untouched", "octets outside the buffer's %zu octets (and outside the destination) changed", S);
+    }
+    free(blk);
+    free(img);
+    mc_end(true, outcome);
+}
+
+static void
+adjacent_family(size_t maxS)
+{
+    static const char *KN[] = { "add", "consume", "consume_at_most" };
+    for (size_t S = 1; S <= maxS; ++S)
+        for (size_t used = 0; used <= S; ++used)
+            for (size_t off = 0; off <= used; ++off)
+                for (int kind = 0; kind < 3; ++kind) {
+                    const size_t avail = S - used, rest = used - off;
+                    /* lengths the operation has to serve (at-most: one more than is there, too) */
+                    const size_t maxlen = (kind == 0) ? avail : (kind == 1) ? rest : (rest ? rest + 1 : 0);
+                    for (size_t len = 1; len <= maxlen; ++len)
+                        for (int behind = 0; behind < 2; ++behind)
+                            for (size_t gap = 0; gap < 2; ++gap) {
+                                if (!mc_case("adjacent size=%zu state=(used=%zu,off=%zu) op=%s(%zu) %s = the %zu octets %s the buffer's memory (gap %zu) in one object",
+                                             S, used, off, KN[kind], len, kind == 0 ? "source" : "destination", len,
+                                             behind ? "directly behind" : "directly in front of", gap))
+                                    continue;
+                                adjacent_case(S, used, off, kind, len, behind != 0, gap);
+                            }
+                }
+}
+
 /* ---- B1: sizes straddling 2^8 / 2^16 on exact heap blocks ------------------- */
 
 static int
@@ -751,12 +1150,15 @@ medium_family(void)
                     for (int i = 0; i < nl; ++i)
                         ops[no++] = (struct op){ OP_ADD, lens[i], 3 };
                     nl = 0;
+                    /* consume: the destination has the stated length, so only lengths
+                     * that can be backed (the values from 2^63 on are dropped again below) */
                     const size_t cl[] = { 0, 1, 2, 3, rest - 1, rest, rest + 1, rest + 2, bd - 1, bd, bd + 1,
                                           S, S + 1, rest + bd, rest + 2 * bd,
-                                          (size_t)1 << 32, ((size_t)1 << 32) + rest, (size_t)1 << 63,
+                                          ((size_t)1 << 31) - 1, (size_t)1 << 31, ((size_t)1 << 31) + rest,
+                                          ((size_t)1 << 32) - 1, (size_t)1 << 32, ((size_t)1 << 32) + rest, (size_t)1 << 63,
                                           SIZE_MAX - o0, SIZE_MAX - o0 + 1, SIZE_MAX - o0 + 2, SIZE_MAX };
                     for (size_t i = 0; i < sizeof cl / sizeof cl[0]; ++i)
-                        if (!(rest == 0 && cl[i] == rest - 1))
+                        if (!(rest == 0 && cl[i] == rest - 1) && farlen_backable(cl[i]))
                             nl = uniq_push(lens, nl, 32, cl[i]);
                     for (int i = 0; i < nl; ++i)
                         ops[no++] = (struct op){ OP_CONSUME, lens[i], 0 };
@@ -806,8 +1208,6 @@ medium_family(void)
 
 /* ---- B2: sizes straddling 2^31 / 2^32 on a lazily backed mapping ------------ */
 
-#define BIGLEN (((size_t)1 << 32) + ((size_t)1 << 17))
-static unsigned char *bigmap;
 static const size_t HOTW[] = { 0, (size_t)1 << 16, (size_t)1 << 31, (size_t)1 << 32 };
 #define NHOT (sizeof HOTW / sizeof HOTW[0])
 #define HOT_BEFORE 32
@@ -822,30 +1222,6 @@ hot_write(void)
     for (size_t h = 0; h < NHOT; ++h)
         for (size_t p = hot_lo(HOTW[h]); p < hot_hi(HOTW[h]); ++p)
             bigmap[p] = pos_pattern(p);
-}
-
-/* Only the pages under the windows are accessible.  An implementation that
- * touches any other page of the mapping (say, one that scrubs free room: work
- * proportional to the size, legitimate, but 4 GiB here) is not a violation:
- * the case is abandoned and the run marked non-exhaustive.  Faults elsewhere
- * go to the sanitizer's handler as before. */
-static sigjmp_buf big_jmp;
-static volatile sig_atomic_t big_armed;
-static struct sigaction big_oldsa;
-
-static void
-big_segv(int sig, siginfo_t *si, void *ctx)
-{
-    const uintptr_t a = (uintptr_t)si->si_addr;
-    if (big_armed && bigmap != NULL && a >= (uintptr_t)bigmap && a < (uintptr_t)bigmap + BIGLEN) {
-        big_armed = 0;
-        siglongjmp(big_jmp, 1);
-    }
-    if (big_oldsa.sa_flags & SA_SIGINFO) {
-        big_oldsa.sa_sigaction(sig, si, ctx);
-    } else {
-        signal(SIGSEGV, SIG_DFL);
-    }
 }
 
 static bool
@@ -865,26 +1241,10 @@ big_get(void)
         }
     }
     bigmap = p;
-    struct sigaction sa;
-    memset(&sa, 0, sizeof sa);
-    sa.sa_sigaction = big_segv;
-    sa.sa_flags = SA_SIGINFO | SA_NODEFER;
-    sigaction(SIGSEGV, &sa, &big_oldsa);
+    guard_install();
     hot_write();
     return true;
 }
-
-/* run `CALL` on the mapping; `UNDECIDED` when it touched a page outside the windows */
-#define BIG_GUARDED(CALL, UNDECIDED)            \
-    do {                                        \
-        if (sigsetjmp(big_jmp, 1) == 0) {       \
-            big_armed = 1;                      \
-            CALL;                               \
-            big_armed = 0;                      \
-        } else {                                \
-            UNDECIDED = true;                   \
-        }                                       \
-    } while (0)
 
 /* the windows as they were when the operation under test started */
 static unsigned char hot0[NHOT][HOT_BEFORE + HOT_AFTER];
@@ -953,7 +1313,7 @@ big_family(void)
 {
     const size_t B31 = (size_t)1 << 31, B32 = (size_t)1 << 32;
     const size_t sizes[] = { B31 - 1, B31, B31 + 1, B32 - 1, B32, B32 + 1, B32 + 7 };
-    bool mapped = true, said_undecided = false;
+    bool mapped = true, said_undecided = false, said_unsupported = false;
     for (size_t si = 0; si < sizeof sizes / sizeof sizes[0]; ++si) {
         const size_t S = sizes[si];
         size_t gv[32];
@@ -992,7 +1352,8 @@ big_family(void)
                                       2 * B32, (size_t)1 << 63, SIZE_MAX - o0, SIZE_MAX - o0 + 1, SIZE_MAX - o0 + 2,
                                       SIZE_MAX };
                 for (size_t i = 0; i < sizeof cl / sizeof cl[0]; ++i)
-                    if (cl[i] > rest || cl[i] <= 8)
+                    /* the destination has the stated length: only lengths that can be backed */
+                    if ((cl[i] > rest || cl[i] <= 8) && farlen_backable(cl[i]))
                         nl = uniq_push(lens, nl, 32, cl[i]);
                 for (int i = 0; i < nl; ++i)
                     ops[no++] = (struct op){ OP_CONSUME, lens[i], 0 };
@@ -1022,10 +1383,24 @@ big_family(void)
                     memset(&b, 0, sizeof b);
                     bool undecided = false;
                     int src0 = 0;
+                    const ByteBuffer zeroed = b;
                     BIG_GUARDED(src0 = byte_buffer_set(&b, bigmap, S, u0, o0), undecided);
                     if (!undecided && src0 < 0) {
-                        mc_fail("C18/setup-accepts-valid", "byte_buffer_set refused a valid state");
-                        mc_end(false, "setup-refused");
+                        /* the statement promises no range of sizes: an implementation
+                         * that does not take buffers of 2^31 octets and more refuses
+                         * them here -- a cap of this family, not a violation */
+                        size_t badp = 0;
+                        if (!refused_descriptor_ok(&b, &zeroed))
+                            mc_fail("C18/refusal-unchanged",
+                                    "refused set-up left a changed descriptor that still describes memory: size=%#zx used=%#zx offset=%#zx",
+                                    b.size, b.used, b.offset);
+                        else if (!hot_filled_kept(S, &badp))
+                            mc_fail("C18/refusal-unchanged", "refused set-up changed octet %#zx", badp);
+                        if (!said_unsupported)
+                            mc_cap("byte_buffer_set refuses buffers of 2^31 octets and more: large-scope cases not decided");
+                        said_unsupported = true;
+                        hot_write();
+                        mc_end(false, "big-unsupported");
                         continue;
                     }
                     size_t kept = 0;
@@ -1041,8 +1416,9 @@ big_family(void)
                     bool refused = false;
                     enum bigexp bx = BX_SAME;
                     size_t xa = 0, xn = 0;
-                    unsigned char src[8], dst[16];
+                    unsigned char src[8];
                     unsigned char *xsrc = NULL, *xdst = NULL;
+                    bool xmapped = false;
                     const char *outcome = "?";
                     switch (undecided ? OP_CLEAR : o->k) {
                     case OP_ADD: {
@@ -1070,8 +1446,11 @@ big_family(void)
                         break;
                     }
                     case OP_CONSUME: {
-                        xdst = mc_exact(8);
-                        memset(xdst, 0xee, 8);
+                        xdst = dst_get(o->len, o->len <= rest ? o->len : 0, &xmapped);
+                        if (xdst == NULL) {
+                            undecided = true;
+                            break;
+                        }
                         int rc = 0;
                         BIG_GUARDED(rc = byte_buffer_consume(&b, xdst, o->len), undecided);
                         if (undecided)
@@ -1098,8 +1477,11 @@ big_family(void)
                     }
                     case OP_ATMOST: {
                         const size_t n = o->len < rest ? o->len : rest;
-                        xdst = mc_exact(16);
-                        memset(xdst, 0xee, 16);
+                        xdst = dst_get(o->len, n, &xmapped);
+                        if (xdst == NULL) {
+                            undecided = true;
+                            break;
+                        }
                         ssize_t rc = 0;
                         BIG_GUARDED(rc = byte_buffer_consume_at_most(&b, xdst, o->len), undecided);
                         if (undecided)
@@ -1151,7 +1533,6 @@ big_family(void)
                         break;
                     default: break;
                     }
-                    (void)dst;
                     if (undecided) {
                         /* the implementation touched pages of the mapping outside the
                          * windows: nothing the statement forbids, but not decidable here */
@@ -1160,7 +1541,8 @@ big_family(void)
                             mc_cap("large-scope cases abandoned: the implementation touches memory in proportion to the buffer size");
                         said_undecided = true;
                         free(xsrc);
-                        free(xdst);
+                        if (xdst != NULL)
+                            dst_put(xdst, xmapped);
                         hot_write();
                         mc_end(false, "big-undecided");
                         continue;
@@ -1183,11 +1565,13 @@ big_family(void)
                             mc_fail("C18/outside-untouched", "octet %#zx behind the buffer's %#zx octets changed", bad, S);
                         else
                             mc_fail(cl_, "octet %#zx of the buffer differs from the model's content", bad);
-                    } else if (byte_buffer_avail(&b) != S - m_used || byte_buffer_rest(&b) != m_used - m_off)
-                        mc_fail("C18/avail-rest", "avail=%#zx rest=%#zx, model %#zx %#zx", byte_buffer_avail(&b),
-                                byte_buffer_rest(&b), S - m_used, m_used - m_off);
+                    }
+                    /* byte_buffer_avail / byte_buffer_rest do not occur in the statement: observed, not demanded */
+                    mc_log("avail=%#zx rest=%#zx (model: %#zx %#zx)", byte_buffer_avail(&b), byte_buffer_rest(&b),
+                           S - m_used, m_used - m_off);
                     free(xsrc);
-                    free(xdst);
+                    if (xdst != NULL)
+                        dst_put(xdst, xmapped);
                     hot_write();
                     mc_end(true, outcome);
                 }
@@ -1246,7 +1630,21 @@ big_family(void)
                         mc_log("rc=%d size=%#zx used=%#zx offset=%#zx", rc, b.size, b.used, b.offset);
                         const bool valid = !dnull && S > 0 && used <= S && off <= used;
                         size_t bad = 0;
-                        if (valid) {
+                        bool unsupported = false;
+                        if (valid && rc < 0 && S >= B31 - 1) {
+                            /* no range of sizes is promised: a cap, not a violation; what a
+                             * refused set-up may leave behind is demanded all the same */
+                            unsupported = true;
+                            if (!refused_descriptor_ok(&b, &before))
+                                mc_fail("C18/refusal-unchanged",
+                                        "refused set-up left a changed descriptor that still describes memory: size=%#zx used=%#zx offset=%#zx",
+                                        b.size, b.used, b.offset);
+                            else if (!hot_check(S, 0, true, BX_SAME, 0, 0, NULL, &bad))
+                                mc_fail("C18/refusal-unchanged", "refused set-up changed octet %#zx", bad);
+                            if (!said_unsupported)
+                                mc_cap("byte_buffer_set refuses buffers of 2^31 octets and more: large-scope cases not decided");
+                            said_unsupported = true;
+                        } else if (valid) {
                             if (rc < 0)
                                 mc_fail("C18/setup-accepts-valid", "refused rc=%d", rc);
                             else if (b.data != data || b.size != S || b.used != used || b.offset != off)
@@ -1255,18 +1653,17 @@ big_family(void)
                                 mc_fail("C18/setup-accepts-valid", "set-up changed octet %#zx", bad);
                         } else if (rc >= 0) {
                             mc_fail("C18/setup-refuses", "accepted rc=%d", rc);
-                        } else if (b.data != before.data || b.size != before.size || b.used != before.used
-                                   || b.offset != before.offset) {
+                        } else if (!refused_descriptor_ok(&b, &before)) {
                             mc_fail("C18/refusal-unchanged",
-                                    "refused set-up changed the descriptor: data %s, size %#zx -> %#zx, used %#zx -> %#zx, offset %#zx -> %#zx",
-                                    b.data == before.data ? "same" : "changed", before.size, b.size, before.used,
-                                    b.used, before.offset, b.offset);
+                                    "refused set-up left a changed descriptor that still describes memory: data %s, size %#zx -> %#zx, used %#zx -> %#zx, offset %#zx -> %#zx",
+                                    b.data == before.data ? "same" : b.data == NULL ? "NULL" : "changed", before.size,
+                                    b.size, before.used, b.used, before.offset, b.offset);
                         } else if (!hot_check(S, 0, true, BX_SAME, 0, 0, NULL, &bad)) {
                             mc_fail("C18/refusal-unchanged", "refused set-up changed octet %#zx", bad);
                         }
                         free(pmem);
                         hot_write();
-                        mc_end(true, valid ? "big-set-ok" : "big-set-refused");
+                        mc_end(!unsupported, unsupported ? "big-unsupported" : valid ? "big-set-ok" : "big-set-refused");
                     }
         }
 }
@@ -1287,18 +1684,23 @@ main(int argc, char **argv)
     mc_partition(-1, 100);
     for (size_t size = 1; size <= maxsize; ++size)
         reuse_pass(size);
+    mc_partition(-1, 103);
+    expr_family(mc_thorough() ? 5 : 3);
+    mc_partition(-1, 104);
+    adjacent_family(maxsize);
     mc_partition(-1, 101);
     medium_family();
     mc_partition(-1, 102);
     big_family();
-    char bound[600];
+    char bound[1400];
     snprintf(bound, sizeof bound,
              "sizes 1..%zu, octets {00,a1,b2}, all operations, operand lengths 0..size+1, to fixpoint; "
-             "far operands 2^{8,15,16,31,32,3*2^32,48,63,64}-/+(size+1) in every reached state; "
+             "far operands 2^{8,15,16,31,32,3*2^32,48,63,64}-/+(size+1) in every reached state (consume/at-most: up to 3*2^32, into a destination of that length); "
              "set-up matrix (small and far used/offset) on zeroed/ff/nulled/in-use(every used,offset) descriptors + every operation once after an accepted re-set-up; "
              "sizes 2^{%s}-1..+1 on exact heap blocks x boundary (used,offset) x boundary/far operands, all operations; "
-             "sizes 2^31-1..2^31+1, 2^32-1..2^32+1, 2^32+7 on a lazily backed mapping x boundary (used,offset) x operations moving <= 8 octets or refusing (no clear), set-up matrix at that scale",
-             maxsize, mc_thorough() ? "7,8,15,16" : "8,16");
+             "sizes 2^31-1..2^31+1, 2^32-1..2^32+1, 2^32+7 on a lazily backed mapping x boundary (used,offset) x operations moving <= 8 octets or refusing (no clear), set-up matrix at that scale; "
+             "every operation with a side-effect buffer argument in every (used,offset) of sizes 1..%d; operands touching the buffer's memory (front/behind, gap 0/1) for every state and length of sizes 1..%zu",
+             maxsize, mc_thorough() ? "7,8,15,16" : "8,16", mc_thorough() ? 5 : 3, maxsize);
     mc_finish(true, bound);
     return 0;
 }
